@@ -1,7 +1,7 @@
 SPECIFICATION Spec
 CONSTANTS
   ItemCodes = {"Ra", "RB", "Rb", "Rz", "Ga", "Gb", "O", "M", "A"}
-  MaxLen = 4
+  MaxLen = 3
   MaxDev = 2
   DevTypes = {"sep", "dir", "semi", "cmt", "range"}
 INVARIANT Emit
